@@ -81,6 +81,53 @@ class PathEval:
             return ("agg", rv["agg"], rv.get("def"), ops)
         return ("otherrv", str(sorted(rv.keys())))
 
+    def _apply(self, fterm, argv):
+        """Value of calling a function value (fn item or closure built on this path) on one argument; None if unknown."""
+        if fterm[0] == "fnconst":
+            return [((), ("callv", fterm[1], (argv,)))]
+        if fterm[0] == "agg" and fterm[1] == "closure" and fterm[2]:
+            cb = self.f.body(fterm[2])
+            if cb is not None and self.depth < 3:
+                try:
+                    sub = PathEval(self.f, cb, self.max_paths)
+                    sub.depth = self.depth + 1
+                    sub._walk(0, {1: fterm, 2: argv}, (), frozenset())
+                    return [(c2, v2) for c2, v2, _ in sub.out]
+                except TooComplex:
+                    return None
+        return None
+
+    def _std_model(self, name, short, args):
+        opt = "std::option::Option"
+        def some(x):
+            return ("agg", opt, "Some", (x,))
+        none = ("agg", opt, "None", ())
+        if short == "checked_div" and len(args) == 2 and not name.startswith(self.f.crate + "::"):
+            a, b = args
+            return [((self.canon_cond(("binop", "Ne", b, ("int", 0)), True),), some(("binop", "Div", a, b))),
+                    ((self.canon_cond(("binop", "Ne", b, ("int", 0)), False),), none)]
+        if name.startswith(opt) and args and args[0][0] == "agg" and args[0][1] == opt:
+            o = args[0]
+            is_some = o[2] == "Some"
+            if short == "map_or" and len(args) == 3:
+                if not is_some:
+                    return [((), args[1])]
+                return self._apply(args[2], o[3][0])
+            if short == "map_or_else" and len(args) == 3:
+                if is_some:
+                    return self._apply(args[2], o[3][0])
+                return None
+            if short == "map" and len(args) == 2:
+                if not is_some:
+                    return [((), none)]
+                r = self._apply(args[1], o[3][0])
+                return [(c, some(v)) for c, v in r] if r is not None else None
+            if short == "unwrap_or" and len(args) == 2:
+                return [((), o[3][0] if is_some else args[1])]
+            if short in ("is_some", "is_none") and len(args) == 1:
+                return [((), ("int", 1 if is_some == (short == "is_some") else 0))]
+        return None
+
     @staticmethod
     def canon_cond(c, taken_true):
         """(key, polarity): zero tests on a value are one predicate `nz(x)`."""
@@ -126,6 +173,17 @@ class PathEval:
             args = tuple(a for a in args if not (a[0] == "agg" and a[1] == "std::sync::atomic::Ordering"))
             name = fn.get("def") or "<indirect>"
             d = t["dest"]
+            # a few std combinators are evaluated by their meaning, so that `a.checked_div(b).map_or(Z, f)` and
+            # `if b > 0 { f(a / b) } else { Z }` are the same denotation
+            model = self._std_model(name, fn.get("name"), args)
+            if model is not None:
+                for c2, v2 in model:
+                    e2 = dict(env)
+                    if not d["p"]:
+                        e2[d["l"]] = v2
+                    if t.get("target") is not None:
+                        self._walk(t["target"], e2, conds + tuple(c2), onpath)
+                return
             # a crate-local, loop-free callee (e.g. another accessor) is evaluated in place: its paths continue here
             cb = self.f.body((fn.get("resolved") or {}).get("def") or name) if fn else None
             if cb is not None and self.depth < 3 and cb.def_kind in ("Fn", "AssocFn") and not self.f.fns.get(cb.defn, {}).get("async") and len(args) == cb.arg_count:
